@@ -108,8 +108,35 @@ fn raw_parts(r: &mut Rng) -> (i64, u64) {
     (c, ns)
 }
 
+/// Word-size aliases in the QUOTIENT domain: counts whose number of whole units (centuries, days, seconds, ...) is
+/// j + m * 2^k for a small j -- a quotient narrowed with `as i64 / as i32 / as i16 / as u8` before its range is tested
+/// wraps to the small j there, and a saturating result turns into an ordinary value (seeded change C02-8: the century
+/// quotient of `from_total_nanoseconds` cast to i64 before the i16 test, wrong only around +/- m * 2^64 centuries).
+fn quotient_alias(r: &mut Rng) -> i128 {
+    let unit: i128 = *r.pick(&[NPC, 86_400_000_000_000, 3_600_000_000_000, 60_000_000_000, 1_000_000_000, 1_000_000, 1_000]);
+    let k: u32 = *r.pick(&[8u32, 15, 16, 31, 32, 63, 64]);
+    let m: i128 = *r.pick(&[1i128, -1, 2, -2, 3]);
+    let j: i128 = match r.below(4) {
+        0 => 0,
+        1 => r.range_i64(-3, 3) as i128,
+        2 => r.range_i64(-32768, 32767) as i128,
+        _ => *r.pick(&[32767i128, 32768, -32768, -32769]),
+    };
+    let rem: i128 = match r.below(3) {
+        0 => 0,
+        1 => r.range_i64(0, 5) as i128,
+        _ => (r.next() as i128).rem_euclid(unit),
+    };
+    m.checked_shl(k)
+        .and_then(|q| q.checked_add(j))
+        .and_then(|q| q.checked_mul(unit))
+        .and_then(|t| t.checked_add(rem))
+        .unwrap_or(i128::MAX)
+}
+
 fn i128_total(r: &mut Rng) -> i128 {
-    match r.below(10) {
+    match r.below(12) {
+        10 | 11 => quotient_alias(r),
         0 => *r.pick(&[i128::MAX, i128::MIN, i128::MAX - 1, i128::MIN + 1, 0, 1, -1]),
         1 => (r.next() as i128) << 64 | r.next() as i128,
         2 => DMAX + r.range_i64(-3, 3) as i128,
@@ -270,7 +297,31 @@ fn unit_factor(u: &str) -> i128 {
 }
 
 pub fn inputs_c03(r: &mut Rng, n: usize, _tier: &str, out: &mut dyn Write) {
-    for _ in 0..n {
+    for i in 0..n {
+        if i % 10 == 9 {
+            // compare-after-arithmetic (seeded change C03-7: `+=` leaving (c, one century of ns), which the field-wise
+            // order misreads): every arithmetic entry point, half of the results aimed at a whole number of centuries
+            let a = total(r);
+            let how = *r.pick(&["add", "sub", "addassign", "subassign", "addu", "subu", "addassign_u", "subassign_u", "neg", "abs"]);
+            let k = r.range_i64(-3, 3) as i128 + if r.chance(1, 4) { r.range_i64(-32768, 32767) as i128 } else { 0 };
+            let dlt = *r.pick(&[0i128, 0, 0, 1, -1]);
+            match how {
+                "addu" | "subu" | "addassign_u" | "subassign_u" => {
+                    let u = unit_name(r);
+                    let f = unit_factor(u);
+                    let a2 = if r.chance(1, 2) { a } else if how == "addu" || how == "addassign_u" { k * NPC - f + dlt } else { k * NPC + f + dlt };
+                    writeln!(out, "cmp_via {} {} {}", how, dstr(a2.clamp(DMIN, DMAX)), u).unwrap();
+                }
+                "neg" | "abs" => writeln!(out, "cmp_via {} {} -", how, dstr(if r.chance(1, 2) { a } else { k * NPC + dlt }.clamp(DMIN, DMAX))).unwrap(),
+                _ => {
+                    // b within one century (the usual fast-path guard) or anything; result on k centuries
+                    let a2 = if r.chance(1, 2) { a } else { k * NPC + r.below(NPC as u64) as i128 };
+                    let b = if r.chance(1, 3) { partner(r, a2) } else if how == "add" || how == "addassign" { k * NPC + NPC - a2.rem_euclid(NPC) + dlt - k * NPC + if r.chance(1, 2) { 0 } else { r.range_i64(-2, 2) as i128 * NPC } } else { a2.rem_euclid(NPC) + dlt + if r.chance(1, 2) { 0 } else { r.range_i64(-2, 2) as i128 * NPC } };
+                    writeln!(out, "cmp_via {} {} {}", how, dstr(a2.clamp(DMIN, DMAX)), dstr(b.clamp(DMIN, DMAX))).unwrap();
+                }
+            }
+            continue;
+        }
         let a = total(r);
         let b = match r.below(9) {
             0 => a,
@@ -496,6 +547,31 @@ pub fn exec(op: &str, a: &[&str]) -> Option<String> {
             Some(format!("ok {} {}", s.as_secs(), s.subsec_nanos()))
         }
         // ---- C03
+        // compare-after-arithmetic: x is the RESULT of an arithmetic entry point (whatever form it was left in); it is
+        // compared, both ways, with the freshly constructed duration of the same parts and with its two neighbours
+        "cmp_via" => {
+            let x0 = s2d(a[1]);
+            let x = match a[0] {
+                "add" => x0 + s2d(a[2]),
+                "sub" => x0 - s2d(a[2]),
+                "addassign" => { let mut d = x0; d += s2d(a[2]); d }
+                "subassign" => { let mut d = x0; d -= s2d(a[2]); d }
+                "addu" => x0 + s2u(a[2]),
+                "subu" => x0 - s2u(a[2]),
+                "addassign_u" => { let mut d = x0; d += s2u(a[2]); d }
+                "subassign_u" => { let mut d = x0; d -= s2u(a[2]); d }
+                "neg" => -x0,
+                "abs" => x0.abs(),
+                _ => return None,
+            };
+            let (c, ns) = x.to_parts();
+            let y = Duration::from_parts(c, ns);
+            let mut o = format!("ok {}", d2s(x));
+            for z in [y, y + Duration::from_parts(0, 1), y - Duration::from_parts(0, 1)] {
+                o.push_str(&format!(" {} {} {} {} {}", d2s(z), ord2s(x.cmp(&z)), ord2s(z.cmp(&x)), b2s(x == z), b2s(z == x)));
+            }
+            Some(o)
+        }
         "eq" => Some(format!("ok {}", b2s(s2d(a[0]) == s2d(a[1])))),
         "ne" => Some(format!("ok {}", b2s(s2d(a[0]) != s2d(a[1])))),
         "lt" => Some(format!("ok {}", b2s(s2d(a[0]) < s2d(a[1])))),
